@@ -42,7 +42,7 @@ def run_bounded(chk):
     fails = []
     n_eval = 0
     named = corpus.named_convex()
-    names = list(named)[:8 if chk.tier == "quick" else len(named)]
+    names = list(named)[:8 if chk.bounded_tier == "quick" else len(named)]
     for name in names:
         pts = named[name]
         if len(pts) > 12:
